@@ -25,6 +25,7 @@ func init() {
 			"R4": "claim-set unit: go (tracked) of a closure calling the refresh loop, dominated by the claim Store(true), under the election mutex; every return of the loop: ctx.Done() case | claim false | a may-demote call precedes it in its block",
 			"R5": "see C15-R3",
 			"R6": "see C08-R2/R3",
+			"R7": "from the ticker case every path to the next tick passes the goroutine issuing the refresh, an increment of a failure counter (loop-carried +1 or the health counter's Add), or a may-demote call",
 		},
 	})
 }
@@ -232,6 +233,130 @@ func checkC03(c *Ctx) {
 		c.check(okLeaves, "R2", "failure counter: +1 per failure, reset only on success", counter, "%d reaching definitions; %s", len(leaves), strings.Join(detail, "; "))
 	}
 
+	// ---- R7: every tick of a standing claim is an attempt or a counted failure ---------
+	// From the ticker case, every path to the next tick passes one of: the goroutine issuing
+	// the refresh, an increment of a failure counter (loop-carried or the health counter),
+	// or a demotion. A path that skips the refresh without counting lets a cut-off leader
+	// claim leadership for ever.
+	isTick := func(b *ssa.BasicBlock) bool {
+		for _, in := range b.Instrs {
+			if sel, ok := in.(*ssa.Select); ok && sel.Blocking {
+				for _, st := range sel.States {
+					if s := m.Sym.Of(st.Chan); strings.Contains(s.String(), "time.NewTicker(") && strings.HasSuffix(s.String(), ".C") {
+						return true
+					}
+				}
+			}
+		}
+		return false
+	}
+	counts := func(b *ssa.BasicBlock) bool {
+		for _, in := range b.Instrs {
+			switch x := in.(type) {
+			case *ssa.Go:
+				for _, t := range m.funcValueTargets(x.Call.Value) {
+					if m.reachesStoreOp(t) {
+						return true
+					}
+				}
+			case *ssa.BinOp:
+				if x.Op == token.ADD {
+					if _, isPhi := x.X.(*ssa.Phi); isPhi {
+						if n, isC := constInt(x.Y); isC && n == 1 {
+							return true
+						}
+					}
+				}
+			case *ssa.Call:
+				if fld, meth, ok := m.atomicCall(x); ok && fld == m.HealthCounter && meth == "Add" {
+					return true
+				}
+				if g := x.Call.StaticCallee(); g != nil && m.isLib(g) && m.mayDemote(g, specFor(x, g), 0) {
+					return true
+				}
+			}
+		}
+		return false
+	}
+	nTick := 0
+	eachInstr(rf, func(in ssa.Instruction) {
+		sel, ok := in.(*ssa.Select)
+		if !ok || !sel.Blocking || !isTick(in.Block()) {
+			return
+		}
+		// the select's successors: walk from the block after the select, stop at counting blocks, look for the next tick
+		nTick++
+		var leak ssa.Instruction
+		seen := map[*ssa.BasicBlock]bool{}
+		var walk func(b *ssa.BasicBlock, first bool)
+		walk = func(b *ssa.BasicBlock, first bool) {
+			if leak != nil {
+				return
+			}
+			if !first && b == in.Block() {
+				leak = in
+				return
+			}
+			if seen[b] && !first {
+				return
+			}
+			seen[b] = true
+			if !first {
+				if counts(b) {
+					return
+				}
+				if isTick(b) {
+					leak = b.Instrs[0]
+					for _, x := range b.Instrs {
+						if x.Pos().IsValid() {
+							leak = x
+							break
+						}
+					}
+					return
+				}
+			}
+			for _, sx := range liveSuccs(b) {
+				walk(sx, false)
+			}
+		}
+		walk(in.Block(), true)
+		// which path? report the guard of the skipping edge if we can find it
+		c.check(leak == nil, "R7", "every tick is a refresh attempt or a counted failure", in,
+			"a path from the tick back to the next tick issues no refresh, increments no failure counter and demotes nothing: %v. A leader whose refreshes are skipped this way never reaches the failure threshold and never steps down.", leak != nil)
+	})
+	if nTick == 0 {
+		c.undecided("R7", "ticker select", firstInstr(rf), "the blocking select on the heartbeat ticker was not found")
+	}
+	// R2': the failure edge of an attempt always reaches the classification
+	eachInstr(rf, func(in ssa.Instruction) {
+		ifi, ok := in.(*ssa.If)
+		if !ok {
+			return
+		}
+		l := m.litOf(ifi.Cond, true, ifi)
+		if l.S.Op == "bin" && l.S.Name == "==" && symMentions(l.S, "nil") && symMentions(l.S, "NewTimeoutError(") {
+			failEdge := map[bool]int{true: 1, false: 0}[l.Truth]
+			escape := reachAvoid(in.Block(), failEdge, func(x ssa.Instruction) bool {
+				if _, isRet := x.(*ssa.Return); isRet {
+					return true
+				}
+				s, ok := x.(*ssa.Select)
+				return ok && s.Blocking && isTick(x.Block())
+			}, func(b *ssa.BasicBlock) bool {
+				for _, x := range b.Instrs {
+					if i2, ok := x.(*ssa.If); ok {
+						if l2 := m.litOf(i2.Cond, true, i2); l2.S.Op == "call" && strings.HasSuffix(l2.S.Name, "IsPermanentError") {
+							return true
+						}
+					}
+				}
+				return false
+			})
+			c.check(escape == nil, "R2", "every failed attempt is classified", in, "from the updateErr != nil edge the next tick (or a return) is reachable without passing the IsPermanentError test: %v (%s)", escape != nil, c.posOf(escape))
+		}
+	})
+
 	// ---- R3 -----------------------------------------------------------------------
 	n3 := 0
 	eachInstr(rf, func(in ssa.Instruction) {
@@ -283,7 +408,7 @@ func checkC03(c *Ctx) {
 	if !started {
 		c.viol("R4", "claim implies refresh loop", nil, "no claim-set unit starts the refresh loop: a claim without heartbeats outlives its record")
 	}
-	for _, b := range rf.Blocks {
+	for _, b := range liveBlocks(rf) {
 		ret, ok := b.Instrs[len(b.Instrs)-1].(*ssa.Return)
 		if !ok || b == rf.Recover {
 			continue
